@@ -64,6 +64,13 @@ def catalogue():
     R.append(("cl-plus", G, ok + b"Content-Length: +5\r\n\r\nhello", None))
     R.append(("cl-minus-zero", G, ok + b"Content-Length: -0\r\n\r\n", None))
     R.append(("cl-junk", G, ok + b"Content-Length: 5x\r\n\r\nhello", None))
+    R.append(("cl-second-bad", G, ok + b"Content-Length: 5\r\nContent-Length: abc\r\n\r\nhello", None))
+    R.append(("cl-nul", G, ok + b"Content-Length: 5\x00junk\r\n\r\nhello", None))
+    R.append(("te-two-hdrs", G, ok + b"Transfer-Encoding: gzip\r\nTransfer-Encoding: chunked\r\n\r\n5\r\nhello\r\n0\r\n\r\n", 'X'))
+    R.append(("te-tab-open", G, ok + b"Transfer-Encoding:\tchunked\r\n\r\n5\r\nhello\r\n0\r\n\r\n", None))
+    R.append(("no-length-conn-te", G, ok + b"Connection: TE\r\n\r\nhello world", 'X'))
+    R.append(("no-length-keepalive-open", G, ok + b"Connection: keep-alive\r\n\r\nhello world", None))
+    R.append(("bare-cr-value", G, ok + b"X-Cr: a\r b\r\nContent-Length: 0\r\n\r\n", None))
     R.append(("cl-dup-same", G, ok + b"Content-Length: 5\r\nContent-Length: 5\r\n\r\nhello", None))
     R.append(("ws-colon-cl", G, ok + b"Content-Length : 5\r\n\r\nhello", 'X'))
     R.append(("te-and-cl", G, ok + b"Content-Length: 3\r\nTransfer-Encoding: chunked\r\n\r\n5\r\nhello\r\n0\r\n\r\n", None))
